@@ -333,6 +333,32 @@ def judge_tvglang(ctx: common.Ctx, res: List[dict], stream: str = 'G-tvglang') -
     return nd
 
 
+def judge_translate(ctx: common.Ctx, res: List[dict], stream: str = 'G-translate') -> int:
+    """Layer G, function level, third stage: the peptide graph the real `ThreeFrameTVG.translate`
+    returned (snapshot taken by the stage wrapper before create_cleavage_graph; nodes named by the
+    input node they were translated from) against `Translate.translateGraph` of the Lean model run
+    on the dump of the graph the real call found, both in canonical form.  INTERNAL stream: a diff is
+    a broken correspondence (model and code disagree), not a violation."""
+    cases = [(r['translate'][0], r['translate'][1], r) for r in res if r.get('translate')]
+    if not cases:
+        return 0
+
+    def nontrivial(real: str) -> bool:
+        # some node carries a variant (`ids.start.stop.off.off` in the variant field)
+        return any(len(n.split(':')) > 4 and n.split(':')[4] for n in real.split('|E=')[0].split(';'))
+
+    nd = ctx.diff_stream(stream, cases, False, describe, nontrivial,
+                         'translate: real peptide graph differs from the function-level model')
+    ctx.count(stream, 'compared', len(cases))
+    from . import graph_stages as _gs
+    for _l, real, _r in cases:
+        for k_, v_ in _gs.translate_flags(real).items():
+            if v_:
+                ctx.count(stream, k_)
+    ctx.count(stream, 'pvg_nodes', sum(real.split('|E=')[0].count(';') + 1 for _l, real, _r in cases))
+    return nd
+
+
 def describe(r: dict) -> dict:
     d = dict(r.get('desc', {}))
     d.pop('tx_seq', None)
@@ -347,17 +373,67 @@ def replay_of(r: dict, **extra) -> dict:
 
 
 KF_CIRC = 'circ-copies-carry-different-variant-sets'
+KF_FUSION_FS = 'frameshifts-in-both-retained-stretches-of-fusion'
 
 
-def explore_backbone(ctx: common.Ctx, kind: str, n_jobs: int, opts: dict, procs: int = 14):
+def cv_backbone_vars_at() -> int:
+    from . import cv_backbone
+    return cv_backbone.CVB_VARS_AT
+
+
+def fusion_both_fs_missing(ctx: common.Ctx, r: dict, missing: Set[str]) -> Set[str]:
+    """open finding frameshifts-in-both-retained-stretches-of-fusion.  The input must carry the
+    structural signature (cv_backbone.fusion_backbone: a frameshifting record inside the LEFT retained
+    stretch and a frameshifting record inside the RIGHT retained stretch); a missing peptide is
+    attributed to the finding only when it NEEDS a frameshifting record of both stretches: it is in no
+    per-transcript set, and in neither of the backbone sets the Lean definition gives without the
+    left-stretch frameshifting records / without the right-stretch ones.  Returns the attributed
+    peptides (any other missing peptide stays a violation)."""
+    bf = r.get('both_fs')
+    if not bf or not missing or 'cvb' not in r or bf['vf_no_left_fs'] is None or bf['vf_no_right_fs'] is None:
+        return set()
+    lines = []
+    for vf in (bf['vf_no_left_fs'], bf['vf_no_right_fs']):
+        a = list(r['cvb'])
+        a[cv_backbone_vars_at()] = vf
+        lines.append('\t'.join(a + [r['deny'], r['canon']]))
+    outs = ctx.lean(lines)
+    if not outs or len(outs) != 2:
+        return set()
+    rest = to_set(outs[0]) | to_set(outs[1]) | r.get('S_main', set())
+    return {p for p in missing if p not in rest}
+
+
+def fusion_both_fs_extra(r: dict, extra: Set[str]) -> Set[str]:
+    """the other direction of the same finding (the garbled paths also spell sequences no combination
+    yields): a reported peptide outside the definition is attributed only when the input carries the
+    structural signature and EVERY header entry of the peptide is an entry of the fusion that names a
+    record at or behind the first frameshifting record of the right stretch"""
+    bf = r.get('both_fs')
+    if not bf or not extra:
+        return set()
+    out = set()
+    for p in extra:
+        # an entry reads <fusion id>|<k>-<record id>|…|<counter>
+        ents = [e.split('|') for h in r['headers'].get(p, []) for e in h.split(' ')]
+        if ents and all(e[0] == r['desc']['fusion'] and
+                        any(x.endswith('-' + i) for x in e[1:] for i in bf['behind']) for e in ents):
+            out.add(p)
+    return out
+
+
+def explore_backbone(ctx: common.Ctx, kind: str, n_jobs: int, opts: dict, procs: int = 14,
+                     extra_seeds=()):
     """fusion / circRNA inputs: real FASTA vs the union of the per-transcript sets and the Lean
     backbone set.  Each completed result gets 'S' and 'real_set' (+ 'S_mixed' for circRNA cases
-    that disagree)."""
+    that disagree).  `extra_seeds`: fixed worker seeds appended to the drawn ones (witness inputs of
+    open findings, so that every run exercises their classification)."""
     from . import cv_backbone
     worker = {'fusion': cv_backbone.fusion_worker, 'circ': cv_backbone.circ_worker,
               'combo': cv_backbone.combo_worker}[kind]
     ops = {'fusion': ['cvb'], 'circ': ['cvc'], 'combo': ['cvb', 'cvc']}[kind]
     jobs = [(ctx.rng(kind + 'job', i).randrange(1 << 30), ctx.tier, opts) for i in range(n_jobs)]
+    jobs += [(int(s_), ctx.tier, opts) for s_ in extra_seeds]
     with mp.get_context('fork').Pool(min(procs, max(1, n_jobs))) as pool:
         res = pool.map(worker, jobs)
     stats: Dict[str, int] = {}
@@ -381,10 +457,12 @@ def explore_backbone(ctx: common.Ctx, kind: str, n_jobs: int, opts: dict, procs:
         return res
     for r in done:
         r['S'] = set()
+        r['S_main'] = set()
         r['deny'] = ''
     for (i, k), o in zip(idx, outs):
         if k == 'main':
             done[i]['S'] |= to_set(o)
+            done[i]['S_main'] |= to_set(o)
         else:
             done[i]['deny'] = o
     # pass 2: the backbone
